@@ -121,6 +121,25 @@ NEEDS = {
     "C17f": "an OS-level error raised by writer.drain(): drain moved to the try's else clause, outside the except OSError",
     "C18f": "an undecodable payload followed by further broker messages: the decode try was flattened outside the async for, the receive task ends after reporting the first one",
     "C19f": "2.x only, a message that is rejected as invalid (bad battery/heartbeat/version payload) from a known node: handle_missing_node_child also catches InvalidMessageError and writes a presentation request; 1.x writes nothing",
+    # seventh round: the change had to be one of DATA (a constant, a table, a field declaration, a key, an except tuple), not of control flow
+    "C01g": "a payload longer than 25 characters: MessageSchema.payload got validate.Length(max=25) (validators run on load only, so dump still encodes it)",
+    "C02g": "a line whose node id is an integer outside 0..255: the Range validator's error template got a placeholder marshmallow does not supply -> KeyError instead of a rejection",
+    "C03g": "a line whose node id is an integer outside 0..255: same broken error template as C02g (found independently), KeyError escapes listen()",
+    "C04g": "a battery report of 0 (or one that rounds to 0) from a known node: the accepted range became 1..100, the legal report is rejected and not recorded",
+    "C05g": "protocol 2.2 active and an internal message of type 30: the member I_SIGNAL_REPORT_REVERSE was removed from the 2.2 Internal enum, a type that exists in 2.2 is refused",
+    "C06g": "version unknown and a version reply with an unusable payload: I_VERSION was added to the tuple of types exempt from the version query",
+    "C07g": "two set commands for one child of a sleeping node that differ in the value type: the buffer key's third component became message.command (always 1)",
+    "C08g": "the same key change as C07g (found independently): two value types for one child share a slot, the displaced command is never written, with or without a write fault",
+    "C09g": "the same key change as C07g (found independently), seen through the race: a racing send for (child, other type) displaces the entry the release is about to write",
+    "C10g": "2.x, an outstanding request for node N and a child presentation from N: the marker is cleared under key (node, 255, 19) by every presentation, not only the node's own",
+    "C11g": "an id request whose child id is not 255: the answer is built with child_id=SYSTEM_CHILD_ID instead of the request's child id",
+    "C12g": "two set commands for one child of a sleeping node with different value types: the buffer key lost its third component, the second displaces the first",
+    "C13g": "a sketch name, sketch version or child description longer than 25 characters (nothing on the receive path limits them): the schema fields got validate.Length(max=25), save writes what load refuses",
+    "C14g": "an otherwise valid record whose battery_level is an int outside 0..100: the Range validator's error template uses {value}, which marshmallow does not supply -> KeyError",
+    "C16g": "leaving the context while the saver is not asleep (not yet started, or inside a save): cancel_save suppresses Exception instead of CancelledError (a BaseException)",
+    "C17g": "a valid UTF-8 line that starts with a byte order mark: read decodes with 'utf-8-sig', which drops it",
+    "C18g": "more than 100 broker messages before a read: the receive queue got maxsize=100 (same change as C18b, found independently)",
+    "C19g": "an internal message of type 25 (pong), which exists in 2.0 and 2.1: in the 2.2 enum I_PONG became an alias of value 24, so 25 is no member there",
     "C19b": "a child of type S_HEATER / S_CUSTOM and a set whose value type the 1.4 table lists for it but newer tables do not (or vice versa): shared handle_set consults the per-version table",
 }
 
